@@ -255,7 +255,9 @@ func Run(c *evid.Ctx) {
 			for s := lo; s < hi; s++ {
 				k.instant(start+int64(s)*1000, s%60 == 0)
 				if s%60 == 0 {
-					k.instant(start+int64(s)*1000-1, true)
+					if s > 0 { // the millisecond before the century starts is outside the property's range
+						k.instant(start+int64(s)*1000-1, true)
+					}
 					k.instant(start+int64(s)*1000+1, false)
 				}
 			}
